@@ -97,10 +97,24 @@ func gsxStubLoadedGroups(e *ruleguard.Engine) []ruleguard.GoRuleGroup {
 	return append([]ruleguard.GoRuleGroup(nil), gsxIRGroups...)
 }
 
+// gsxDocSnippet: documentation snippets quote Go code: for the first group's before/after
+// text a few concrete texts with escapes, quotes and format verbs stand next to the
+// solver-chosen ones.
+func gsxDocSnippet(name string) string {
+	if name == "g0.before" || name == "g0.after" {
+		switch gsxrt.Choose(name+".menu", 3) {
+		case 1:
+			return `w.WriteRune('\n')`
+		case 2:
+			return "x\\ty %s"
+		}
+	}
+	return gsxDocText(name)
+}
+
 func gsxDocText(name string) string {
 	s := gsxrt.StringN(name, 3)
-	// letters and the backslash (documentation snippets quote Go code such as '\n')
-	gsxrt.Assume(gsxrt.Matches(`^[a-z\\]*$`, s))
+	gsxrt.Assume(gsxrt.Matches(`^[a-z]*$`, s))
 	return s
 }
 
@@ -111,8 +125,8 @@ func gsxMakeGroups() {
 		p := "g" + gsxDigit(i)
 		// names are concrete: registration sorts and looks up ~70 checker names
 		name := "gsxrule" + gsxDigit(i)
-		g := ruleguard.GoRuleGroup{Name: name, DocSummary: gsxDocText(p + ".summary"), DocBefore: gsxDocText(p + ".before"),
-			DocAfter: gsxDocText(p + ".after"), DocNote: gsxDocText(p + ".note"), DocTags: []string{"style"}}
+		g := ruleguard.GoRuleGroup{Name: name, DocSummary: gsxDocText(p + ".summary"), DocBefore: gsxDocSnippet(p + ".before"),
+			DocAfter: gsxDocSnippet(p + ".after"), DocNote: gsxDocText(p + ".note"), DocTags: []string{"style"}}
 		if gsxrt.Choose(p+".experimental", 2) == 1 {
 			g.DocTags = []string{"style", "experimental"}
 		}
